@@ -657,13 +657,27 @@ Proof.
       right. split; [right; exact Hin | exact Hld].
 Qed.
 
-Definition signed_ok (c : cfg) (tips : smap (list update)) (signed : smap (oid * sigobj)) : Prop :=
+(* what the fetch is told about a namespace: the rad/sigrefs oid that is
+   announced (refs_at) or advertised (in scope, not blocked), and the advertised rad/id *)
+Definition announced (c : cfg) (S : store) (r : nid) : option oid :=
+  match c_refs_at c with
+  | Some ras => lookup r (clean_refs_at c ras)
+  | None => if negb (is_blocked c r) && in_scope c r then lookup SIGREFS (ns_of S r) else None
+  end.
+Definition advertised_id (c : cfg) (S : store) (r : nid) : option oid :=
+  match c_refs_at c with
+  | Some _ => None
+  | None => if negb (is_blocked c r) && in_scope c r then lookup RAD_ID (ns_of S r) else None
+  end.
+
+Definition signed_ok (c : cfg) (L S : store) (tips : smap (list update)) (signed : smap (oid * sigobj)) : Prop :=
   forall r t o, lookup r signed = Some (t, o) ->
     lookup t U = Some o /\ so_valid o = true /\ is_blocked c r = false /\
-    sp_shape (pol c r) t (updates_of tips r).
+    updates_of tips r = special_updates c r (advertised_id c S r) (announced c S r) /\
+    (announced c S r = Some t \/ (announced c S r = None /\ sigrefs_of L r = Some t)).
 
-Definition staged_ok (c : cfg) (s : staged) : Prop :=
-  sorted (st_tips s) /\ sorted (st_signed s) /\ signed_ok c (st_tips s) (st_signed s).
+Definition staged_ok (c : cfg) (L S : store) (s : staged) : Prop :=
+  sorted (st_tips s) /\ sorted (st_signed s) /\ signed_ok c L S (st_tips s) (st_signed s).
 
 Lemma advertised_NoDup c S : sorted S -> NoDup (map fst (advertised c S)).
 Proof.
@@ -700,10 +714,10 @@ Qed.
 Lemma nil_shape p t : sp_shape p t [].
 Proof. exists [], []. repeat split; auto. Qed.
 
-Lemma stage_special_ok c L S s : sorted S ->
-  stage_special U c L S = inr s -> staged_ok c s.
+Lemma stage_special_ok c L S s : sorted S -> c_refs_at c = None ->
+  stage_special U c L S = inr s -> staged_ok c L S s.
 Proof.
-  intros HS. unfold stage_special. cbv zeta.
+  intros HS Hmode. unfold stage_special. cbv zeta.
   set (adv := advertised c S).
   destruct (negb (eff_threshold c =? 0) && _ && _); [discriminate|].
   match goal with |- context [Fetch.load_all _ ?st _ _ _] => set (sigtips := st) end.
@@ -717,27 +731,50 @@ Proof.
   { destruct (fold_add_tips fst (fun x => special_updates c (fst x) (fst (snd x)) (snd (snd x))) adv Hnd [] sorted_nil)
       as [T1 [T2 [T3 _]]]. exact (conj T1 (conj T2 T3)). }
   destruct TT as [T1 [T2 T3]].
-  assert (G1 : forall x, In x adv -> lookup (fst x) sigtips =
-                 match snd (snd x) with Some t => Some t | None => None end).
-  { exact (proj1 (fold_insert_lookup fst (fun x : nid * (option oid * option oid) => snd (snd x)) adv Hnd ([] : smap oid))). }
+  assert (GG : (forall x, In x adv -> lookup (fst x) sigtips =
+                 match snd (snd x) with Some t => Some t | None => None end) /\
+               (forall r, ~ In r (map fst adv) -> lookup r sigtips = None)).
+  { destruct (fold_insert_lookup fst (fun x : nid * (option oid * option oid) => snd (snd x)) adv Hnd ([] : smap oid))
+      as [G1 G2]. exact (conj G1 G2). }
+  destruct GG as [G1 G2].
   destruct (load_all_spec _ _ _ _ _ Ela sorted_nil) as [Hss Hsig].
   unfold staged_ok. cbn [st_tips st_signed]. split; [exact T1|]. split; [exact Hss|].
   intros r t o Hl. destruct (Hsig r t o Hl) as [Hc|[Hin Hld]]; [discriminate|].
   destruct (load_Loaded _ _ _ _ _ Hld) as [HU [Hv Hsrc]].
   split; [exact HU|]. split; [exact Hv|].
+  unfold announced, advertised_id. rewrite Hmode.
   destruct (in_dec N.eq_dec r (map fst adv)) as [Hadv|Hnadv].
   - apply in_map_iff in Hadv. destruct Hadv as [x [Ex Hx]]. subst r.
-    destruct (advertised_In c S x Hx) as [Hb _]. split; [exact Hb|].
-    rewrite (T2 x Hx). cbn [updates_of lookup app].
+    destruct (advertised_In c S x Hx) as [Hb [Hsc [ns [Hns [Ei Es]]]]]. split; [exact Hb|].
+    assert (Ens : ns_of S (fst x) = ns).
+    { unfold ns_of. rewrite (In_lookup _ _ _ HS Hns). reflexivity. }
+    rewrite Hb, Hsc, Ens. cbn [negb andb]. rewrite <- Ei, <- Es.
+    split; [rewrite (T2 x Hx); reflexivity|].
     specialize (G1 x Hx). destruct (snd (snd x)) as [t'|].
     + destruct Hsrc as [Hs|[Hs _]]; rewrite G1 in Hs; [|discriminate].
-      inversion Hs; subst. apply special_shape.
-    + apply special_shape_none.
-  - split.
-    + apply in_app_or in Hin. destruct Hin as [Hin|Hin]; [contradiction|].
-      unfold eff_delegates in Hin. apply filter_In in Hin. destruct Hin as [_ Hin].
-      destruct (is_blocked c r); [discriminate | reflexivity].
-    + unfold updates_of. rewrite (T3 r Hnadv). cbn [lookup]. apply nil_shape.
+      inversion Hs; subst. left. reflexivity.
+    + destruct Hsrc as [Hs|[_ Hs]]; [rewrite G1 in Hs; discriminate|]. right. auto.
+  - assert (Hdel : In r (eff_delegates c)).
+    { apply in_app_or in Hin. destruct Hin as [Hin|Hin]; [contradiction | exact Hin]. }
+    assert (Hb : is_blocked c r = false).
+    { unfold eff_delegates in Hdel. apply filter_In in Hdel. destruct Hdel as [_ Hd].
+      destruct (is_blocked c r); [discriminate | reflexivity]. }
+    assert (Hsc : in_scope c r = true).
+    { unfold in_scope. destruct (c_followed c); [|reflexivity].
+      apply orb_true_iff. right. apply memN_In. exact Hdel. }
+    split; [exact Hb|]. rewrite Hb, Hsc. cbn [negb andb].
+    assert (Hnone : lookup RAD_ID (ns_of S r) = None /\ lookup SIGREFS (ns_of S r) = None).
+    { unfold ns_of. destruct (lookup r S) as [ns|] eqn:ES; [|split; reflexivity].
+      destruct (lookup RAD_ID ns) as [i|] eqn:Ei; destruct (lookup SIGREFS ns) as [sg|] eqn:Es;
+        try (split; reflexivity); exfalso; apply Hnadv; apply in_map_iff;
+        exists (r, (lookup RAD_ID ns, lookup SIGREFS ns)); (split; [reflexivity|]);
+        unfold adv, advertised; apply filter_In;
+        (split; [apply in_map_iff; exists (r, ns); split; [reflexivity | apply lookup_In; exact ES]|]);
+        cbn [fst snd]; rewrite Hb, Hsc, Ei, Es; reflexivity. }
+    destruct Hnone as [Hi Hsg]. rewrite Hi, Hsg.
+    split; [unfold updates_of; rewrite (T3 r Hnadv); reflexivity|].
+    right. split; [reflexivity|].
+    destruct Hsrc as [Hs|[_ Hs]]; [rewrite (G2 r Hnadv) in Hs; discriminate | exact Hs].
 Qed.
 
 Lemma clean_refs_at_spec c (ras0 : list (nid * oid)) : forall acc : smap oid, sorted acc ->
@@ -752,10 +789,10 @@ Proof.
     intros r a. rewrite lookup_insert_any. destruct (N.eqb_spec r (fst x)); [subst; auto | apply Hb].
 Qed.
 
-Lemma stage_sigrefs_at_ok c L ras0 s :
-  stage_sigrefs_at U c L ras0 = inr s -> staged_ok c s.
+Lemma stage_sigrefs_at_ok c L S ras0 s : c_refs_at c = Some ras0 ->
+  stage_sigrefs_at U c L ras0 = inr s -> staged_ok c L S s.
 Proof.
-  unfold stage_sigrefs_at. cbv zeta. set (ras := clean_refs_at c ras0).
+  intros Hmode. unfold stage_sigrefs_at. cbv zeta. set (ras := clean_refs_at c ras0).
   match goal with |- context [forallb ?f ras] => destruct (forallb f ras) end; cbn [negb]; [|discriminate].
   match goal with |- context [mkStaged ?tp _] => set (tips := tp) end.
   destruct (load_all ras L (map fst ras) []) as [signed|] eqn:Ela; [|discriminate].
@@ -777,21 +814,23 @@ Proof.
   destruct (In_keys_lookup r ras Hin) as [a Ha].
   split; [eapply Hrb; exact Ha|].
   destruct Hsrc as [Hs|[Hs _]]; rewrite Ha in Hs; [|discriminate]. inversion Hs; subst a.
+  unfold announced, advertised_id. rewrite Hmode. fold ras. rewrite Ha.
   pose proof (lookup_In _ _ _ Ha) as Hx. pose proof (T2 (r, t) Hx) as T2x. cbn [fst snd] in T2x.
-  rewrite T2x. cbn [updates_of lookup app].
-  exists [], [Direct SIGREFS t (pol c r)]. repeat split; auto.
+  split; [rewrite T2x; reflexivity | left; reflexivity].
 Qed.
 
 (* after DataRefs and the removal of unsigned namespaces *)
-Definition tips_ok (c : cfg) (L : store) (signed : smap (oid * sigobj)) (tips : smap (list update)) : Prop :=
+Definition tips_ok (c : cfg) (L S : store) (signed : smap (oid * sigobj)) (tips : smap (list update)) : Prop :=
   forall r us, lookup r tips = Some us ->
-    exists t o sp, lookup r signed = Some (t, o) /\
+    exists t o, lookup r signed = Some (t, o) /\
       lookup t U = Some o /\ so_valid o = true /\ is_blocked c r = false /\
-      sp_shape (pol c r) t sp /\ us = sp ++ data_part (ns_of L r) (so_content o).
+      (announced c S r = Some t \/ (announced c S r = None /\ sigrefs_of L r = Some t)) /\
+      us = special_updates c r (advertised_id c S r) (announced c S r)
+           ++ data_part (ns_of L r) (so_content o).
 
-Lemma stage_data_ok c L s : staged_ok c s ->
+Lemma stage_data_ok c L S s : staged_ok c L S s ->
   let s' := drop_unsigned (stage_data L s) in
-  st_signed s' = st_signed s /\ sorted (st_tips s') /\ tips_ok c L (st_signed s) (st_tips s').
+  st_signed s' = st_signed s /\ sorted (st_tips s') /\ tips_ok c L S (st_signed s) (st_tips s').
 Proof.
   intros [Ht [Hs Hok]]. cbn zeta. unfold drop_unsigned, stage_data. cbn [st_tips st_signed].
   split; [reflexivity|].
@@ -803,10 +842,10 @@ Proof.
   rewrite (lookup_filter_key (fun k => mem k (st_signed s))) in Hl.
   destruct (mem r (st_signed s)) eqn:Em; [|discriminate].
   apply mem_lookup in Em. destruct Em as [[t o] Hsg].
-  destruct (Hok r t o Hsg) as [HU [Hv [Hb Hsh]]].
-  exists t, o, (updates_of (st_tips s) r). repeat split; try assumption.
+  destruct (Hok r t o Hsg) as [HU [Hv [Hb [Hex Hsrc]]]].
+  exists t, o. repeat split; try assumption.
   pose proof (lookup_In _ _ _ Hsg) as Hx. specialize (T2 _ Hx). cbn [fst snd] in T2.
-  unfold updates_of in T2 at 1. rewrite Hl in T2. rewrite T2. reflexivity.
+  unfold updates_of in T2 at 1. rewrite Hl in T2. rewrite T2, Hex. reflexivity.
 Qed.
 
 (* ------------------------------------------------------------------ *)
@@ -982,16 +1021,18 @@ Proof.
 Qed.
 
 (* what the plan guarantees about the updates that are going to be applied *)
-Definition planned (c : cfg) (L : store) (r : nid) (us : list update) : Prop :=
-  exists t o sp,
+Definition planned (c : cfg) (L S : store) (r : nid) (us : list update) : Prop :=
+  exists t o,
     lookup t U = Some o /\ so_valid o = true /\ is_blocked c r = false /\
-    sp_shape (pol c r) t sp /\ us = sp ++ data_part (ns_of L r) (so_content o) /\
+    (announced c S r = Some t \/ (announced c S r = None /\ sigrefs_of L r = Some t)) /\
+    us = special_updates c r (advertised_id c S r) (announced c S r)
+         ++ data_part (ns_of L r) (so_content o) /\
     verdict_ok anc U L r t o us.
 
 Lemma plan_spec c L S tipsF validF : sorted S ->
   plan anc U c L S = inr (tipsF, validF) ->
   sorted tipsF /\
-  (forall r us, lookup r tipsF = Some us -> planned c L r us) /\
+  (forall r us, lookup r tipsF = Some us -> planned c L S r us) /\
   sorted validF /\
   (forall d, In d (keys validF) ->
      is_delegate c d = true /\ (sigrefs_of L d <> None \/ exists us, lookup d tipsF = Some us)).
@@ -1000,11 +1041,12 @@ Proof.
   destruct (negb (c_srv_canon c)); [discriminate|].
   assert (Hst : forall s, match c_refs_at c with
                           | Some ras => stage_sigrefs_at U c L ras
-                          | None => stage_special U c L S end = inr s -> staged_ok U c s).
-  { intros s. destruct (c_refs_at c) as [ras|]; [apply stage_sigrefs_at_ok | apply stage_special_ok; exact HS]. }
+                          | None => stage_special U c L S end = inr s -> staged_ok U c L S s).
+  { intros s. destruct (c_refs_at c) as [ras|] eqn:Em;
+      [apply stage_sigrefs_at_ok; exact Em | apply stage_special_ok; [exact HS | exact Em]]. }
   destruct (match c_refs_at c with Some ras => _ | None => _ end) as [e|s]; [discriminate|].
   specialize (Hst s eq_refl).
-  destruct (stage_data_ok U c L s Hst) as [Esig [Hts Htok]]. cbn zeta in *.
+  destruct (stage_data_ok U c L S s Hst) as [Esig [Hts Htok]]. cbn zeta in *.
   set (s' := drop_unsigned (stage_data L s)) in *.
   rewrite Esig. intros E.
   destruct Hst as [_ [Hss _]].
@@ -1014,9 +1056,9 @@ Proof.
   split; [eapply loop_fold_sorted; eauto|].
   split; [|split; [exact I3|]].
   - intros r us Hl. pose proof (I1 _ _ Hl) as Hl0.
-    destruct (Htok r us Hl0) as [t [o [sp [Hsg [HU [Hv [Hb [Hsh Eus]]]]]]]].
-    exists t, o, sp. split; [exact HU|]. split; [exact Hv|]. split; [exact Hb|].
-    split; [exact Hsh|]. split; [exact Eus|].
+    destruct (Htok r us Hl0) as [t [o [Hsg [HU [Hv [Hb [Hsrc Eus]]]]]]].
+    exists t, o. split; [exact HU|]. split; [exact Hv|]. split; [exact Hb|].
+    split; [exact Hsrc|]. split; [exact Eus|].
     apply (I2 (r, (t, o)) us (lookup_In _ _ _ Hsg) Hb Hl).
   - intros d Hd. destruct (I4 d Hd) as [H0|[Hdl [Hb [x [us [Hx [Ex Hl]]]]]]].
     + destruct (Hv0 d H0) as [Ha Hb]. split; [exact Ha | left; exact Hb].
